@@ -129,6 +129,10 @@ PROPS["C17"]["level_note"] = ("NOT DECIDED by this technique: validity and tight
 
 import os as _os
 _SPEC = _os.path.join(_os.path.dirname(_os.path.dirname(_os.path.abspath(__file__))), "spec")
+PROPS["C12"]["quick"] += [
+    {"module": "MC_C03", "cfg": "MC_C12I_quick.cfg", "nprimes": 8, "require_acts": ["Integrate", "IntegrateLogFactor"]},
+    {"module": "MC_COND", "cfg": "MC_C12J_quick.cfg", "nprimes": 6, "require_acts": ["Info"]},
+    {"module": "MC_PDF", "cfg": "MC_C12K_quick.cfg", "nprimes": 6, "require_acts": ["KL", "Update", "Slice"]}]
 PROPS["C12"]["quick"].append({"kind": "b2", "traces": 80, "length": 6, "family": "MC", "nprimes": 10})
 PROPS["C02"]["quick"].append({"kind": "b2", "traces": 60, "length": 6, "family": "MC", "nprimes": 10})
 _THOROUGH_SAMPLING = {"MC_C04M_thorough.cfg": 40, "MC_C04C_thorough.cfg": 24, "MC_C12M_thorough.cfg": 60, "MC_C12C_thorough.cfg": 12}
